@@ -71,7 +71,8 @@ def _multi_clause(prog):
 
 def _strategy(nseeds):
     def f():
-        return st.tuples(gp.programs(), st.lists(st.integers(0, 2 ** 31), min_size=nseeds, max_size=nseeds)).map(
+        progs = st.one_of(gp.programs(), gp.programs(), gp.programs(), gp.programs(error_clauses=True, max_preds=3))
+        return st.tuples(progs, st.lists(st.integers(0, 2 ** 31), min_size=nseeds, max_size=nseeds)).map(
             lambda t: {"prog": t[0], "seeds": t[1]})
     return f
 
